@@ -90,7 +90,8 @@ class Contract:
         self.abstract_round = bool(a.get("abstract_round", False))
         self.loop_vars = a.get("loop_vars", {})
         self.uses = a.get("uses", {})
-        self.assume_pre = a.get("assume_pre", {})  # callee target -> reason (listed in trusted_base)
+        self.assume_pre = a.get("assume_pre", {})
+        self.globals_ = a.get("globals", {})  # module-level names replaced by symbolic values  # callee target -> reason (listed in trusted_base)
         self.chain = bool(a.get("chain", False))
         self.scope = a.get("scope", None)  # e.g. "finite: lengths 0..3" -> not counted as proved
         self.dep = bool(deco_kw.get("dep", False))
@@ -618,6 +619,12 @@ def verify_contract(world, c, tier="quick", loop_support=None, known=None, only_
             f = func
             if c.free:
                 f = resolve_function(world, ip, c.target, free)
+            if c.globals_:
+                gvals = {name: mk_.make(sh, "global." + name) for name, sh in c.globals_.items()}
+                for t in mk_.side:
+                    ip.assume(t)
+                f = I.FuncV(f.name, f.qualname, f.node, I.Env(gvals, f.env, f.module), f.module, f.owner, f.kind)
+                allv.update({"g_" + k: v for k, v in gvals.items()})
             ip.top_func = f
             ip.top_contract = c
             ip.abstract_round = c.abstract_round
